@@ -854,3 +854,152 @@ def unbounded_spread_rule(cx, rep, rid, methods):
                "positive control: canary/ts/spread.ts must yield exactly the two SpreadingRuntype matches (got %s)" % sorted(chits), "canary/ts/spread.ts")
     except Exception as e:
         rep.ob(rid, "control/canary-spread", False, "positive control could not be evaluated: %s" % e, "canary/ts/spread.ts")
+
+
+def numeric_key_rule(fam, mod, rep, rid, methods=("validate", "parseAfterValidation", "reportDecodeError")):
+    """Property names are strings at run time (`Object.keys`), while the compiler hands the KEY TYPE of an index
+    signature to the runtime as an ordinary validator: `Record<number, T>` and `{[k: number]: T}` arrive as
+    `TypeofRuntype("number")`, `Record<1 | 2, T>` as number constants.  Applied to the name itself such a validator
+    rejects every key (`typeof "1" === "number"` is false), so the type would only accept `{}`.  Wherever a method of
+    a class with an index-signature field applies a key validator to a property name, the numeric reading must be
+    offered as well: the same disjunction contains a second application to `Number(name)` (helpers folded back in)."""
+    n = 0
+    for cname in sorted(fam.concrete()):
+        ixf = index_signature_field(fam, cname)
+        if not ixf:
+            continue
+        for mname in methods:
+            _, m = fam.resolve_method(cname, mname)
+            if not m or m["function"].get("body") is None:
+                continue
+            fn = tsast.flatten_fn(mod, cname, m["function"])
+            parents = {}
+            for x in walk(fn):
+                for v in x.values() if isinstance(x, dict) else []:
+                    for c in (v if isinstance(v, list) else [v]):
+                        if isinstance(c, dict):
+                            parents[id(c)] = x
+
+            def numeric(e):
+                e = unparen(e)
+                if e.get("type") == "CallExpression" and s(e["callee"]) in ("Number", "parseFloat", "Number.parseFloat") and e["arguments"]:
+                    return s(e["arguments"][0]["expression"])
+                if e.get("type") == "UnaryExpression" and e["operator"] == "+":
+                    return s(e["argument"])
+                return None
+            calls = []
+            for x in walk(fn):
+                mc = method_call(x) if x["type"] == "CallExpression" else None
+                if mc and mc[1] == "validate" and s(mc[0]).endswith(".key") and len(mc[2]) == 2:
+                    calls.append((x, mc))
+            for x, mc in calls:
+                arg = mc[2][1]
+                if numeric(arg) is not None:
+                    continue
+                n += 1
+                # the outermost `||` chain the call is a disjunct of
+                top = x
+                while True:
+                    p = parents.get(id(top))
+                    if p is None:
+                        break
+                    if p["type"] == "ParenthesisExpression" or (p["type"] == "BinaryExpression" and p["operator"] == "||"):
+                        top = p
+                        continue
+                    break
+                ok = False
+                for y in walk(top):
+                    mc2 = method_call(y) if y["type"] == "CallExpression" else None
+                    if mc2 and mc2[1] == "validate" and s(mc2[0]) == s(mc[0]) and len(mc2[2]) == 2 and numeric(mc2[2][1]) == s(arg):
+                        ok = True
+                rep.ob(rid, "%s.%s/key-validator-sees-numeric-reading#%d" % (cname, mname, sum(1 for c in calls if c[0] is not x and calls.index(c) < calls.index((x, mc)) and numeric(c[1][2][1]) is None)), ok,
+                       "%s.%s applies the key validator of an index signature to the property NAME only (%s): a numeric key type (`Record<number, T>`, `{[k: number]: T}`, `Record<1 | 2, T>`) arrives as a number validator and rejects every name, so the object type accepts nothing but {}" % (cname, mname, s(x)[:60]),
+                       mod.loc(m["function"]), sample={"call": s(x)[:80]})
+    rep.floor(rid, "applications of an index-signature key validator to a property name", n, 3)
+
+
+CMP_OPS = ("<", ">", "<=", ">=", "===", "!==", "==", "!=")
+
+
+def key_count_hits(fam, methods):
+    """[(class, method, node, text)] comparisons between the NUMBER of own keys of the input and the NUMBER of keys the
+    type declares"""
+    mod = fam.mod
+    hits = []
+    for cname in sorted(fam.concrete()):
+        for mname in methods:
+            _, m = fam.resolve_method(cname, mname)
+            if not m or m["function"].get("body") is None:
+                continue
+            fn = tsast.flatten_fn(mod, cname, m["function"])
+            ps = fn_params(fn)
+            inp = ps[1] if len(ps) > 1 else None
+            al = {}
+            for x in walk(fn):
+                if x["type"] == "VariableDeclarator" and x["id"].get("type") == "Identifier" and x.get("init") is not None:
+                    al.setdefault(x["id"]["value"], x["init"])
+
+            def origin(e, d=0):
+                """'input' / 'declared' when e is a list of property names of the input / of the type"""
+                e = unparen(e)
+                if d > 6:
+                    return None
+                if e.get("type") == "Identifier" and e["value"] in al:
+                    return origin(al[e["value"]], d + 1)
+                if e.get("type") == "CallExpression":
+                    cal = s(e["callee"])
+                    if cal in ("Object.keys", "Object.getOwnPropertyNames", "Object.entries", "Reflect.ownKeys") and e["arguments"]:
+                        a0 = unparen(e["arguments"][0]["expression"])
+                        while a0.get("type") == "Identifier" and a0["value"] in al and a0["value"] != inp:
+                            a0 = unparen(al[a0["value"]])
+                        t0 = s(a0)
+                        if t0.startswith("this."):
+                            return "declared"
+                        if inp and t0 == inp:
+                            return "input"
+                        return None
+                    mc = method_call(e)
+                    if mc and mc[1] in ("sort", "slice", "concat", "reverse", "toSorted"):
+                        return origin(mc[0], d + 1)
+                    # a filter keeps a SUBSET: its size no longer stands for all keys (that is the sound idiom)
+                return None
+
+            def count_of(e, d=0):
+                e = unparen(e)
+                if d > 6:
+                    return None
+                if e.get("type") == "Identifier" and e["value"] in al:
+                    return count_of(al[e["value"]], d + 1)
+                if e.get("type") == "MemberExpression" and e["property"].get("type") == "Identifier" and e["property"]["value"] == "length":
+                    return origin(e["object"])
+                return None
+            for x in walk(fn):
+                if x["type"] == "BinaryExpression" and x["operator"] in CMP_OPS:
+                    o = {count_of(x["left"]), count_of(x["right"])}
+                    if o == {"input", "declared"}:
+                        hits.append((cname, mname, x, s(x)))
+    return hits
+
+
+def key_count_rule(cx, rep, rid, methods=("validate", "parseAfterValidation", "reportDecodeError")):
+    """How MANY own keys a value has says nothing about WHICH keys it has: a declared key may be absent (optional
+    members, `unknown`), so a value with as many keys as the type declares can still carry an undeclared one, and a
+    value with no more keys than declared can still carry keys for the index signature.  No decision of validate /
+    parseAfterValidation / reportDecodeError may therefore rest on comparing the number of the input's own keys with
+    the number of declared keys (counting a FILTERED list - the undeclared keys - is the sound idiom)."""
+    fam = Family(cx)
+    hits = key_count_hits(fam, methods)
+    for i, (cname, mname, n, txt) in enumerate(hits):
+        rep.ob(rid, "%s.%s/%s" % (cname, mname, txt), False,
+               "%s.%s decides on `%s`: the number of the input's own keys is compared with the number of declared keys; a value that omits N optional members and carries N other keys has the same count, so undeclared keys pass strict mode / index-signature entries are dropped" % (cname, mname, txt),
+               fam.mod.loc(n), sample={"class": cname, "method": mname, "comparison": txt})
+    n_m = sum(1 for cname in fam.concrete() for mname in methods if fam.resolve_method(cname, mname)[1])
+    rep.ob(rid, "scanned", True, sample={"class_methods_scanned": n_m, "key_count_comparisons": len(hits)})
+    rep.floor(rid, "class methods scanned for key-count comparisons", n_m, 5)
+    try:
+        cfam = Family(cx, "canary/ts/cardinality.ts")
+        chits = {(c, m_) for c, m_, _, _ in key_count_hits(cfam, ["validate"])}
+        rep.ob(rid, "control/canary-cardinality", chits == {("CountingRuntype", "validate")},
+               "positive control: canary/ts/cardinality.ts must yield exactly the CountingRuntype match (got %s)" % sorted(chits), "canary/ts/cardinality.ts")
+    except Exception as e:
+        rep.ob(rid, "control/canary-cardinality", False, "positive control could not be evaluated: %s" % e, "canary/ts/cardinality.ts")
